@@ -23,6 +23,15 @@ def sh(cmd, **kw):
     return subprocess.run(cmd, shell=True, capture_output=True, text=True, **kw)
 
 
+def _write(out_path, results):
+    tmp = out_path + '.tmp'
+    with open(tmp, 'w') as f:
+        json.dump({'note': 'which quick checks report a VIOLATION on each seeded change (scratch copy of /repo, VERIF_REPO); '
+                           'verif_commit = the commit of /verif the record was measured at (+ = with uncommitted changes to the machinery)',
+                   'results': [results[k] for k in sorted(results)]}, f, indent=1, sort_keys=True)
+    os.replace(tmp, out_path)
+
+
 def main():
     args = sys.argv[1:]
     all_checks = '--all-checks' in args
@@ -51,7 +60,9 @@ def main():
         sh('git -C /repo worktree remove --force %s' % wt)
         shutil.rmtree(wt, ignore_errors=True)
         r = sh('git -C /repo worktree add -q --detach %s HEAD' % wt)
-        rec = {'seed_id': sid, 'property': meta['property'], 'needs': meta.get('needs'), 'tier': tier}
+        rec = {'seed_id': sid, 'property': meta['property'], 'needs': meta.get('needs'), 'tier': tier,
+               'verif_commit': sh('git -C %s rev-parse --short HEAD' % VERIF).stdout.strip() + ('+' if sh('git -C %s status --porcelain -- sim check' % VERIF).stdout.strip() else ''),
+               'repo_commit': sh('git -C /repo rev-parse --short HEAD').stdout.strip()}
         try:
             ap = sh('git -C %s apply %s' % (wt, os.path.join(d, 'patch.diff')))
             rec['applies'] = ap.returncode == 0
@@ -94,9 +105,8 @@ def main():
         print(sid, meta['property'], 'suite_ok=%s' % rec.get('suite_passes'), 'demo(repo,change)=(%s,%s)' % (rec.get('demo_on_repo'), rec.get('demo_on_change')),
               'caught_by=%s' % rec.get('caught_by'))
         sys.stdout.flush()
-    with open(out_path, 'w') as f:
-        json.dump({'note': 'which quick checks report a VIOLATION on each seeded change (scratch copy of /repo, VERIF_REPO)',
-                   'results': [results[k] for k in sorted(results)]}, f, indent=1, sort_keys=True)
+        _write(out_path, results)
+    _write(out_path, results)
     shutil.rmtree('/tmp/seeded_evidence', ignore_errors=True)
     shutil.rmtree('/tmp/seeded_replays', ignore_errors=True)
 
